@@ -191,7 +191,7 @@ Theorem chain_with_entities im anns api ms :
   add_structure (im_services im) {| sa_services := []; sa_topics := [] |} = Ok api ->
   wf_anns anns ->
   (forall es, walk_source_schemas anns = Ok es -> exists evs, omapM (entity_events (im_schemas im)) es = Ok evs) ->
-  all_refs_link (im_schemas im) = true -> wf_env (im_schemas im) -> flat_free (im_schemas im) ->
+  all_refs_link (im_schemas im) = true -> wf_env (im_schemas im) -> client_env (im_schemas im) <> None ->
   (forall es, walk_source_schemas anns = Ok es -> forall k, In k (entity_roots es) -> present (im_schemas im) k) ->
   methods_from_source true (with_roots im []) api = Ok ms ->
   Forall wf_client_method ms ->
@@ -202,13 +202,14 @@ Theorem chain_with_entities im anns api ms :
     /\ cr_source r = Ok api
     /\ cr_client r = Ok (ms, ks)
     /\ (forall x, In x ks <->
-          present (im_schemas im) x /\
+          present (cenv (im_schemas im)) x /\
           exists k, In k (root_refs (im_schemas im) (entity_roots es) ++ flat_map method_roots ms)
-                    /\ present (im_schemas im) k /\ reach (im_schemas im) k x)
+                    /\ present (cenv (im_schemas im)) k /\ reach (cenv (im_schemas im)) k x)
     /\ cr_swagger r = Ok tt.
 Proof.
   intros Hsrc Hwa Hev Hl Hwf Hff Hroots Hms Hwm Hmr. cbv zeta.
-  destruct (cenv_noflat _ Hff) as [Ec Ece].
+  destruct (client_env (im_schemas im)) as [g'|] eqn:Ece; [|contradiction]. clear Hff.
+  pose proof (cenv_spec _ g' Ece) as Ec.
   destruct (walk_source_schemas_total anns Hwa) as (es & Ees & _).
   destruct (Hev es Ees) as (evs & Eevs).
   unfold run_chain_ent. rewrite Ees. cbn [obind]. rewrite Eevs. cbn [omap obind].
@@ -217,16 +218,17 @@ Proof.
   assert (Hms' : methods_from_source true (with_roots im (entity_roots es)) api = Ok ms) by exact Hms.
   rewrite Hms'. cbn [obind].
   unfold collect_refs. cbn [with_roots im_schemas im_pkg im_roots]. rewrite Ec.
-  assert (Hall : forall k, In k (root_refs (im_schemas im) (entity_roots es) ++ flat_map method_roots ms) -> present (im_schemas im) k).
-  { intros k Hk. apply in_app_or in Hk as [Hk|Hk]; [|exact (Hmr k Hk)].
+  assert (Hall : forall k, In k (root_refs (im_schemas im) (entity_roots es) ++ flat_map method_roots ms) -> present g' k).
+  { intros k Hk. apply (cenv_present _ g' k Ece). apply in_app_or in Hk as [Hk|Hk]; [|exact (Hmr k Hk)].
     unfold root_refs in Hk. apply in_flat_map in Hk as (r & Hr & Hk).
     destruct (lookup (im_schemas im) r) as [s|] eqn:Es; [|destruct Hk].
     exact (linked_succs (im_schemas im) r s Hl Es k Hk). }
-  destruct (walk_refs_ok (im_schemas im) [im_pkg im] _ Hl Hall) as [ks Eks].
+  destruct (walk_refs_ok g' [im_pkg im] _ (cenv_refs_link _ g' Ece Hl) Hall) as [ks Eks].
+  rewrite (cenv_length _ g' Ece) in Eks.
   rewrite Eks. cbn [omap obind fst snd]. exists es, ks.
   split; [reflexivity|]. split; [reflexivity|]. split; [reflexivity|]. split.
-  - exact (walk_refs_exact (im_schemas im) [im_pkg im] _ _ ks Eks).
-  - apply build_swagger_total; assumption.
+  - exact (walk_refs_exact g' [im_pkg im] _ _ ks Eks).
+  - apply build_swagger_total; [exact (cenv_wf_env _ g' Ece Hwf)|assumption].
 Qed.
 
 (* ---------- non-vacuity: two entities, their objects in a shuffled order -------------------------- *)
